@@ -1,3 +1,4 @@
+import Props.C19Gen
 import Props.C19
 open Model.C19
 #print axioms hash_irreflexive
@@ -17,3 +18,15 @@ open Model.C19
 #print axioms sort_hash_deterministic
 #print axioms sort_lww_sorted
 #print axioms sort_lww_deterministic
+open Model.C19Gen in
+#print axioms clockCompare_eq
+open Model.C19Gen in
+#print axioms lastWriteWins_eq
+open Model.C19Gen in
+#print axioms firstWriteWins_eq
+open Model.C19Gen in
+#print axioms sortByEntryHash_eq
+open Model.C19Gen in
+#print axioms noZeroes_eq
+open Model.C19Gen in
+#print axioms sort_less_eq
